@@ -74,7 +74,7 @@ Qed.
 Lemma ystep_sound : forall st y i y', Agr st y -> ystep y i = Some y' -> Agr (fst (kstep w oracle st i)) y'.
 Proof.
   intros st y i y' A H. destruct A as [AR AK AC AL AT AN].
-  destruct i as [r|r| | |d s|d k|d c|t|r|r c| | |k r]; cbn [ystep kstep fst] in *.
+  destruct i as [r|r| | |d s|d k|d c|t|r|r c|kc0| | |k r]; cbn [ystep kstep fst] in *; try discriminate.
   - injection H as <-. constructor; cbn; try assumption. constructor; [apply AR|exact AK].
   - destruct (pinned r); [discriminate|]. destruct (yk y) as [|v k'] eqn:YK; [discriminate|]. injection H as <-.
     inversion AK as [|v' x l l' KV KR E1 E2]; subst. cbn [fst]. constructor; cbn; try assumption.
@@ -188,7 +188,7 @@ Lemma ystep_noexit_nostore : forall y i y', yexit y = None -> ystore y = [] -> i
   ystep y i = Some y' -> yexit y' = None /\ ystore y' = [].
 Proof.
   intros y i y' E S NJ H.
-  destruct i as [r|r| | |d s|d k|d c|t|r|r c| | |k r]; try discriminate; cbn [ystep] in H.
+  destruct i as [r|r| | |d s|d k|d c|t|r|r c|kc0| | |k r]; try discriminate; cbn [ystep] in H.
   - injection H as <-. split; assumption.
   - destruct (pinned r); [discriminate|]. destruct (yk y); [discriminate|]. injection H as <-. split; assumption.
   - injection H as <-. split; assumption.
@@ -321,6 +321,20 @@ Proof.
   intros st y v1 v2 A H. pose proof (a_calls st y A) as F. rewrite H in F.
   inversion F as [|vv xx l l' P Q E1 E2]; subst. inversion Q; subst. destruct xx as [a1 a2]. destruct P as [P1 P2].
   exists a1, a2. split; [reflexivity|split; assumption].
+Qed.
+
+(** branches *)
+Theorem br_ok_sound : forall i code st, br_ok i code = true ->
+  fst (krun w oracle code st) = {| kr := kr st; kc := kc st; kk := kk st; kcalls := kcalls st;
+                                    kzf := match i with BrZ c _ | BrNZ c _ => (kc st c =? 0) | _ => kzf st end |} /\
+  snd (krun w oracle code st) =
+    match i with BrZ c _ => (kc st c =? 0) | BrNZ c _ => negb (kc st c =? 0) | _ => false end.
+Proof.
+  intros i code st H. destruct i as [| | | | |c off|c off| | | |]; try discriminate;
+    destruct code as [|[| | | | | | | | | |k| | |] [|[| | | | | | | | | | | | |] [|x l]]]; try discriminate;
+    cbn [br_ok] in H; apply Z.eqb_eq in H; subst k; cbn [krun kstep fst snd].
+  - destruct (kc st c =? 0); split; reflexivity.
+  - destruct (kc st c =? 0); split; reflexivity.
 Qed.
 
 (** input: [Inp dst] *)
